@@ -6,7 +6,7 @@ tree=$1; name=$2; shift 2
 T=/verif/build/$tree
 mkdir -p $T/bin $T/hobj
 case $tree in
-  san|pat) SAN="-fsanitize=address,undefined -fno-sanitize-recover=undefined -O1" ;;
+  san|pat) SAN="-fsanitize=address,undefined -fno-sanitize=nonnull-attribute -fno-sanitize-recover=undefined -O1" ;;
   *) SAN="-O2" ;;
 esac
 CXXFLAGS="-std=c++17 -g0 $SAN -fno-omit-frame-pointer -fopenmp -pthread -DFMT_SHARED -DHAVE_CONFIG_H=1 -DOPM_COMMON_VERIF -I$T -I$T/include -I/repo -isystem /root/miniconda/include -Wall -Wno-unused-function"
@@ -25,6 +25,7 @@ for a in "$@"; do
 done
 wait
 for o in "${objs[@]}"; do [ -f "$o" ] || { echo "compile failed: $o" >&2; exit 2; }; done
+[ "$name" = "--objects-only" ] && exit 0
 out=$T/bin/$name
 need=0
 [ -f "$out" ] || need=1
